@@ -22,7 +22,7 @@ import (
 var (
 	c13IPc   = netip.MustParseAddr("192.168.0.12")
 	c13Tgt   = []packet.Addr{{MAC: env.MAC1, IP: ip4a}, {MAC: env.MAC2, IP: ip4b}}
-	apiNames = []string{"StartHunt(t1)", "StartHunt(t2)", "StopHunt(t1)", "StopHunt(t2)", "Close"}
+	apiNames = []string{"StartHunt(t1)", "StartHunt(t2)", "StopHunt(t1)", "StopHunt(t2)", "Close", "StartHunt(t1 under another IP)"}
 	pktNames = []string{"req(t1->router)", "req(t1->other)", "req(t3->router)", "probe(m3,offer!=target)", "probe(m3,offer==target)", "probe(m3,offlan)", "probe(t2,nooffer)", "announce(t1)", "reply(t1)", "req(m3 with t1's ip->router)"}
 )
 
@@ -69,6 +69,16 @@ func c13Packet(k int) []byte {
 
 const c13Cycle = 6 * time.Second
 
+// scribble overwrites a receive buffer after the packet loop is done with it (harness state, shared with goroutines the
+// library may have started on purpose or by mistake: hence norace; the C09 harnesses keep private buffers instead).
+//
+//go:norace
+func scribble(b []byte) {
+	for i := range b {
+		b[i] = 0xa5
+	}
+}
+
 func c13Scenario(api []int, pkts []int) *concScenario {
 	var an, pn []string
 	for _, a := range api {
@@ -98,6 +108,8 @@ func c13Scenario(api []int, pkts []int) *concScenario {
 					for _, op := range api {
 						log.add(huntEvent{kind: "api-call", op: op, t: vsched.NowNanos(), seq: conn.Len()})
 						switch op {
+						case 5: // the MAC of t1 with another address: StartHunt is idempotent per MAC
+							h.StartHunt(packet.Addr{MAC: env.MAC1, IP: c13IPc})
 						case 0, 1:
 							h.StartHunt(c13Tgt[op])
 						case 2, 3:
@@ -109,8 +121,10 @@ func c13Scenario(api []int, pkts []int) *concScenario {
 					}
 				},
 				func() {
+					rx := make([]byte, 256) // the receive buffer of a zero-copy packet loop
 					for _, p := range pkts {
-						f, err := s.Parse(c13Packet(p))
+						n := copy(rx, c13Packet(p))
+						f, err := s.Parse(rx[:n])
 						if err != nil {
 							x.fail("setup", "packet rejected by Parse: "+err.Error())
 							return
@@ -118,6 +132,7 @@ func c13Scenario(api []int, pkts []int) *concScenario {
 						log.add(huntEvent{kind: "deliver", op: p, t: vsched.NowNanos(), seq: conn.Len()})
 						h.ProcessPacket(f)
 						s.Notify(f)
+						scribble(rx) // the next read overwrites the buffer
 					}
 				},
 			)
@@ -173,7 +188,7 @@ func c13Monitor(x *concExec, api []int) {
 		in := false
 		open := -1 // frame seq at which the current maybe-hunted interval started
 		for _, e := range log.ev {
-			if e.kind == "api-call" && e.op == k { // StartHunt(k) called
+			if e.kind == "api-call" && (e.op == k || (e.op == 5 && k == 0)) { // StartHunt(k) called
 				if !in {
 					in, open = true, e.seq
 				}
@@ -200,6 +215,9 @@ func c13Monitor(x *concExec, api []int) {
 	for _, e := range log.ev {
 		if e.kind == "api-call" && e.op < 2 {
 			starts[e.op]++
+		}
+		if e.kind == "api-call" && e.op == 5 {
+			starts[0]++
 		}
 	}
 	var obs []string
@@ -258,7 +276,7 @@ func c13Monitor(x *concExec, api []int) {
 		var stopT int64
 		closeBetween := false
 		for _, e := range log.ev {
-			if e.kind == "api-call" && e.op == k {
+			if e.kind == "api-call" && (e.op == k || (e.op == 5 && k == 0)) {
 				lastStart = e.seq
 				lastStop = -1
 			}
@@ -353,6 +371,9 @@ func c13Histories(maxLen int) [][]int {
 		}
 		for op := 0; op < 5; op++ {
 			rec(append(cur, op))
+		}
+		if len(cur) >= 1 && cur[0] == 0 && len(cur) < maxLen {
+			rec(append(cur, 5)) // after StartHunt(t1): StartHunt of the same MAC under another address
 		}
 	}
 	rec(nil)
